@@ -570,6 +570,20 @@ func c09Locks(c *Ctx, pk *packages.Package, putFn, getFn *ssa.Function) {
 			}
 			if calleeIs(fn, "private/pkg/storage", "ReadPath") && markerArg(call) {
 				markerReads = append(markerReads, call)
+			} else if fn.Pkg() != nil && fn.Pkg().Path() == pk.PkgPath {
+				// a package helper that reads the marker (the re-read moved into a method)
+				if hd := p.DeclOf(fn); hd != nil && hd.Decl.Body != nil {
+					reads := false
+					ast.Inspect(hd.Decl.Body, func(m ast.Node) bool {
+						if hc, ok := m.(*ast.CallExpr); ok && calleeIs(Callee(info, hc), "private/pkg/storage", "ReadPath") && markerArg(hc) {
+							reads = true
+						}
+						return true
+					})
+					if reads {
+						markerReads = append(markerReads, call)
+					}
+				}
 			}
 			for _, w := range []string{"Copy", "PutPath", "CopyPath", "CopyReader"} {
 				if calleeIs(fn, "private/pkg/storage", w) {
@@ -691,11 +705,31 @@ func c09Tamper(c *Ctx) {
 		}
 		return st.Field(fa.Field).Name()
 	}
+	// the digest check itself: the closure built in newModuleData, or the function it forwards to
+	checkerFns := map[*ssa.Function]bool{}
+	var checkBodies []*ssa.Function
+	if nmf := p.Func("private/bufpkg/bufmodule", "newModuleData"); nmf != nil && nmf.Obj != nil {
+		if nsf := p.SSAFunc(nmf.Obj); nsf != nil {
+			for _, a := range nsf.AnonFuncs {
+				for _, f := range reachSSA(a, 1) {
+					if f.Pkg == nil || f.Pkg.Pkg != pk.Types {
+						continue
+					}
+					for _, call := range callsIn(f) {
+						if calleeIs(staticCalleeObj(call.Call), "private/bufpkg/bufmodule", "DigestEqual") && !checkerFns[f] {
+							checkerFns[f] = true
+							checkBodies = append(checkBodies, f)
+						}
+					}
+				}
+			}
+		}
+	}
 	accessors := 0
 	for i := 0; i < nt.NumMethods(); i++ {
 		m := nt.Method(i)
 		sf := p.SSAFunc(m)
-		if sf == nil {
+		if sf == nil || checkerFns[sf] {
 			continue
 		}
 		var checks []ssaCall
@@ -728,9 +762,8 @@ func c09Tamper(c *Ctx) {
 		c.Fail("TAMPER", "newModuleData", token.NoPos, "not found")
 		return
 	}
-	sf := p.SSAFunc(nm.Obj)
 	found := false
-	for _, a := range sf.AnonFuncs {
+	for _, a := range checkBodies {
 		var deq *ssa.Call
 		for _, call := range callsIn(a) {
 			if calleeIs(staticCalleeObj(call.Call), "private/bufpkg/bufmodule", "DigestEqual") {
@@ -784,17 +817,30 @@ func c09Provider(c *Ctx) {
 	}
 	info := fr.Info()
 	g := p.CFGOf(fr.Decl.Body, info)
-	fieldCall := func(call *ast.CallExpr, field string) bool {
+	// the provider's function-valued fields are recognised by shape, not by name: the store read is the one that also
+	// returns the keys it did not find (three results), the store put takes values and returns only an error
+	fieldCall := func(call *ast.CallExpr, results int) bool {
 		sel, ok := ast.Unparen(call.Fun).(*ast.SelectorExpr)
-		return ok && sel.Sel.Name == field
+		if !ok {
+			return false
+		}
+		v, isVar := info.Uses[sel.Sel].(*types.Var)
+		if !isVar || !v.IsField() {
+			return false
+		}
+		sig, isSig := v.Type().Underlying().(*types.Signature)
+		if !isSig || sig.Results().Len() != results || sig.Params().Len() != 2 {
+			return false
+		}
+		return types.Identical(sig.Results().At(results-1).Type(), errorType)
 	}
 	var gets, puts []*ast.CallExpr
 	inspectNoFuncLit(fr.Decl.Body, func(n ast.Node) bool {
 		if call, ok := n.(*ast.CallExpr); ok {
-			if fieldCall(call, "storeGetValuesForKeys") {
+			if fieldCall(call, 3) {
 				gets = append(gets, call)
 			}
-			if fieldCall(call, "storePutValues") {
+			if fieldCall(call, 1) {
 				puts = append(puts, call)
 			}
 		}
